@@ -1,20 +1,16 @@
 from specs.common import run, ASSUME_COMMON
 
-# case layout of harness/c09_w3c.cc: the first enum_bases*68 cases are the completely enumerated
-# block (one case = one byte position of one base header x all 256 values, plus per base: all
-# one-byte appends, all one-byte prepends, all truncations/deletions/duplications, and an
-# inject sweep over all 256 flag bytes); every later case is one seeded inject round trip plus
-# `variants_per_case` generated extract inputs.
-_QUICK_BASES = 8
-_THOROUGH_BASES = 64
-
+# case layout of harness/c09_w3c.cc (the same in both tiers, so a case replays under any tier):
+# every 33rd case is the next slot of the completely enumerated block - enumerated case e = i/33
+# works on base header e/68 (8 kinds in rotation), slot e%68: one byte position x all 256 values
+# (slots 0..63), all one-byte appends (64) / prepends (65), all truncations/deletions/duplications
+# (66), inject sweep over all 256 flag bytes (67); every other case is one seeded inject round trip
+# plus 8 generated extract inputs.  20 500 quick cases = 9 complete bases (4 of them plain
+# version-00 headers) + 19 878 random cases; 5 000 000 thorough cases = 2 228 bases.
 SPEC = {
-    "runs": [run("e1-recogniser", "c09_w3c", "asan", _QUICK_BASES * 68 + 20000, _THOROUGH_BASES * 68 + 3000000,
-                 need_lib=False,
-                 sources=["harness/c09_w3c.cc"],
-                 tier_params={"quick": {"enum_bases": _QUICK_BASES}, "thorough": {"enum_bases": _THOROUGH_BASES, "variants_per_case": 12}})],
+    "runs": [run("e1-recogniser", "c09_w3c", "asan", 20500, 5000000, need_lib=False)],
     "floors": {
-        # the enumerated block is deterministic: 3 of the 8 quick bases are plain version-00 headers
+        # the enumerated block is deterministic: 4 of the 9 quick bases are plain version-00 headers
         "quick": {"enum_single_byte_mutants_v00": 14080, "enum_positions_v00": 55, "enum_flag_bytes_injected": 512,
                   "enum_one_byte_extensions": 1024, "roundtrips": 6000, "roundtrips_flags_other_bits": 3000,
                   "injects_with_tracestate": 3000, "injects_invalid_context": 1200,
@@ -23,11 +19,13 @@ SPEC = {
                   "extract_accept_surrounding_ows": 1500, "extracts_random_bytes": 3000,
                   "reject:version-ff": 300, "reject:zero-trace-id": 300, "reject:zero-span-id": 250,
                   "reject:v00-length>55": 1000, "reject:length<55": 3000, "extract_tracestate_judged": 5000},
-        "thorough": {"enum_single_byte_mutants_v00": 14080 * 8, "enum_flag_bytes_injected": 256 * 16,
-                     "roundtrips": 900000, "roundtrips_flags_other_bits": 400000,
-                     "extract_must_accept": 1500000, "extract_must_reject": 4000000,
-                     "extract_accept_higher_version": 400000, "extracts_random_bytes": 600000,
-                     "reject:version-ff": 40000, "reject:zero-trace-id": 40000, "reject:v00-length>55": 150000},
+        "thorough": {"enum_single_byte_mutants_v00": 14080 * 250, "enum_flag_bytes_injected": 256 * 600,
+                     "enum_one_byte_extensions": 512 * 600, "roundtrips": 1500000, "roundtrips_flags_other_bits": 900000,
+                     "injects_with_tracestate": 700000, "injects_invalid_context": 300000,
+                     "extract_must_accept": 3000000, "extract_must_reject": 8000000,
+                     "extract_accept_higher_version": 1500000, "extract_accept_surrounding_ows": 500000,
+                     "extracts_random_bytes": 900000, "reject:version-ff": 250000, "reject:zero-trace-id": 200000,
+                     "reject:zero-span-id": 80000, "reject:v00-length>55": 1000000, "extract_tracestate_judged": 3000000},
     },
     "engine": "E1 model-oracle",
     "technique": ("independent three-valued recogniser of the W3C traceparent grammar as oracle for the real header-only "
@@ -45,17 +43,19 @@ SPEC = {
     "level_note": ("trusts the recogniser and the list parser in harness/c09_w3c.cc and gcc ASan/UBSan; exhaustive only for the "
                    "named single-byte sub-spaces of the generated base headers, everything else is sampled; TraceState "
                    "internals are C14's"),
-    "rule": ("cases 0..enum_bases*68-1: base header b=i/68 (8 kinds: plain version 00, one-digit ids, mixed-case, higher "
-             "version 55 bytes, higher version + '-suffix', OWS-wrapped, version fe), slot i%68: slots 0..63 substitute all 256 "
-             "byte values at that position, 64/65 append/prepend each of 256 bytes, 66 every prefix, suffix, one-byte deletion "
-             "and duplication, 67 inject + round trip with all 256 flag bytes. Later cases: one inject round trip (structured "
-             "or random ids, weighted flags, trace state of 0..32 members, caller context of 5 kinds), every fourth case an "
-             "invalid context, then 6 generated extract inputs. A case is non-trivial if it ran at least one Extract or one "
-             "Inject of a valid context; distinct = distinct hash of all header bytes (and flag bytes) the case used."),
+    "rule": ("every 33rd case (i%33==0, e=i/33) is enumerated: base header e/68 (8 kinds in rotation: plain version 00, "
+             "one-digit ids, mixed-case, higher version 55 bytes, higher version + '-suffix', OWS-wrapped, plain version 00, "
+             "version fe; ids derived from the run seed), slot e%68: slots 0..63 substitute all 256 byte values at that "
+             "position, 64/65 append/prepend each of 256 bytes, 66 every prefix, suffix, one-byte deletion and duplication, 67 "
+             "inject + round trip with all 256 flag bytes. Every other case: one inject round trip (structured or random ids, "
+             "weighted flags, trace state of 0..32 members, caller context of 5 kinds), every fourth case an invalid context, "
+             "then 8 generated extract inputs. The layout does not depend on the tier. A case is non-trivial if it ran at "
+             "least one Extract or one Inject of a valid context; distinct = distinct hash of all header bytes (and flag "
+             "bytes) the case used."),
     "coverage_extra": {
         "exhaustive_subspaces": [
             {"name": "single-byte substitutions of a valid 55-byte version-00 traceparent (55 positions x 256 values)",
-             "size_per_base": 14080, "counter": "enum_single_byte_mutants_v00", "bases": {"quick": 3, "thorough": 24}},
+             "size_per_base": 14080, "counter": "enum_single_byte_mutants_v00", "bases": {"quick": 4, "thorough": 835}},
             {"name": "single-byte substitutions of mixed-case / higher-version / suffixed / OWS-wrapped valid headers",
              "counter": "enum_single_byte_mutants_other_bases"},
             {"name": "one-byte appends and prepends (256 values each) per base", "counter": "enum_one_byte_extensions"},
@@ -64,7 +64,8 @@ SPEC = {
         ]},
     "assumptions": ASSUME_COMMON + [
         "must-accept = version != ff, version 00 exactly 55 bytes, higher versions 55 bytes or a '-' and visible ASCII after "
-        "the flags, non-zero ids; hex digits of either case and surrounding blanks/tabs are accepted shapes (DESIGN C09)",
+        "the flags, non-zero ids; hex digits of either case and surrounding blanks/tabs are accepted shapes (DESIGN C09); "
+        "their keys carry ':uppercase-hex' / ':surrounding-ows' so they can be told apart",
         "don't-care (counted, not judged): a higher-version header with trailing bytes not introduced by '-', or with "
         "non-visible bytes in the suffix; interior whitespace whose removal would give a well-formed header; CR/LF/VT/FF "
         "around the value; the trace-state entries when the tracestate header is not a strictly valid list",
